@@ -23,6 +23,7 @@ EXPLANATION = (
     "`or` tests the negation; (VISIT) the lowering fold lowers every child of every AST node exactly once, in field order; "
     "(LITERAL) literal emission forms; (START) the call of start is the last thing emitted."
     " (VISIT-dep, CYCLE) a global's initialiser runs after everything it reads: every read below a top-level statement is a dependency edge and a re-entered node is an error."
+    ' (IRP-order late read) no lowering template lets an op read a program variable directly after the code of a child expression has run (`x += f()` snapshots x first).'
 )
 UNDECIDED = ("the behaviour of emitted programs (nothing is executed; no reference semantics of Sylt or Lua is modelled), numeric "
              "edge cases, run-time representation beyond these protocol rules, and the semantics of preamble.lua (C18/C19).")
